@@ -24,6 +24,9 @@ SHAPES = {
     # provided method whose parameters are patterns (destructuring first, then a `ref` binding)
     "pt": dict(g="", ps=[("(w, h)", "(i64, i64)", "(11, 12)", "w"), ("ref lab", "i64", "13", "lab")], ret="i64", res="w * 100 + lab",
                default="w + h + *lab", plain=[("wh", "(i64, i64)"), ("lab", "i64")], show=["wh.0", "lab"]),
+    # qualifiers on trait methods are part of the signature that is mirrored
+    "um": dict(g="", ps=[("a", "i64", "11", "a")], ret="i64", res="a + 1", qual="unsafe "),
+    "em": dict(g="", ps=[("a", "i64", "11", "a")], ret="i64", res="a + 1", qual='extern "C" '),
     "s2": dict(g="", ps=[("a", "&str", '"s11"', "a"), ("b", "i64", "12", "b")], ret="String", res='format!("{}-{}", a, b)'),
     "bor": dict(g="<'x>", recv="&'x self", ps=[("a", "&'x str", '"s11"', "a")], ret="&'x str", res="a"),
     "slf": dict(g="", ps=[], ret="&str", res="self.name()"),
@@ -74,7 +77,7 @@ def method_decl(shape, name, body=None, asy_kw=True, in_trait=False):
     plist = d["ps"] if (in_trait or "plain" not in d) else d["plain"]
     ps = ", ".join([recv] + ["%s: %s" % (p[0], p[1]) for p in plist])
     ret = "" if d["ret"] == "()" else " -> " + d["ret"]
-    head = "%sfn %s%s(%s)%s %s" % ("async " if d.get("asy") else "", name, d["g"], ps, ret, d.get("where", ""))
+    head = "%s%sfn %s%s(%s)%s %s" % ("async " if d.get("asy") else "", d.get("qual", ""), name, d["g"], ps, ret, d.get("where", ""))
     if in_trait and d.get("default") is not None:
         return head + " { " + d["default"] + " }"
     return head + (";" if body is None else " { " + body + " }")
@@ -172,13 +175,15 @@ def render(s):
             for t in (("XRefBare", "XRefNotSync") if notsync else ("XRefBare",)):
                 L.append("    impl ::core::convert::AsRef<%s> for %s { fn as_ref(&self) -> &(%s + 'static) { &self.0 } }" % (dyn, t, dyn))
             L.append("    impl ::core::borrow::Borrow<%s> for XBorrowBare { fn borrow(&self) -> &(%s + 'static) { &self.0 } }" % (dyn, dyn))
-    L.append("    pub fn client() {")
+    L.append("    #[deny(unused_unsafe)] pub fn client() {")
     L.append("        let app = ::entrait::Impl::new(%s);" % mk)
     L.append('        rt::out("prov", format!("{:x}", rt::addr(%s)));' % prov)
     for i, x in enumerate(w):
         d = SHAPES[x]
         args = ", ".join(["&app"] + [p[2] for p in d["ps"]])
         call = "<::entrait::Impl<App> as Tr%s>::m%d(%s)" % (GA, i, args)
+        if "unsafe" in d.get("qual", ""):
+            call = "unsafe { %s }" % call
         if d.get("asy"):
             call = "rt::block_on(%s)" % call
         fmt = "{:?}" if d["ret"] == "()" else "{}"
@@ -198,7 +203,7 @@ def model(s):
         d = SHAPES[x]
         shown = {"11": "11", "12": "12", "13": "13", '"s11"': "s11", "11i64": "11", "11u8": "11", "(11, 12)": "11"}
         args = [shown[p[2]] for p in d["ps"]]
-        res = {"n0": "7", "a1": "12", "a2": "1112", "h2": "1112", "df": "12", "dfs": "12", "pt": "1113", "s2": "s11-12", "bor": "s11", "slf": "prov", "gen": "11", "gm": "11",
+        res = {"n0": "7", "a1": "12", "a2": "1112", "h2": "1112", "df": "12", "dfs": "12", "pt": "1113", "um": "12", "em": "12", "s2": "s11-12", "bor": "s11", "slf": "prov", "gen": "11", "gm": "11",
                "xa1": "12", "xa2": "1112", "xs": "3", "xu": "()"}[x]
         exp["m%d" % i] = dict(trace_tail="|".join(args), result=res)
     try_dyn = all(SHAPES[x].get("dyn", True) for x in w) and not (asy and s["flavour"] == "native")
